@@ -9,7 +9,7 @@ from ..core import (AnalysisError, clone_ast, match_as_if, ap, atoms, call_attr,
                     stores, walk, parent, enclosing_stmt)
 from ..miniinterp import run_block
 from ..tmplmodel import parse_template
-from .common import (as_pair, namedtuple_fields, has_path_fact, class_methods_reachable, const_of, fmt_count, loops_over, spec_symbol,
+from .common import (alias_path, as_pair, namedtuple_fields, has_path_fact, class_methods_reachable, const_of, fmt_count, loops_over, spec_symbol,
                      struct_fmt_of_prim, has_eq_fact)
 
 SER = "hippolyzer/lib/base/message/udpserializer.py"
@@ -93,7 +93,8 @@ def writer_stage(repo, which: str):
         cands = [f for f in fns if any((ap(c.func) or "").endswith("TemplateDataPacker.pack") for c in calls(f.node))]
         legacy = "UDPMessageSerializer._serialize_var"
     else:
-        cands = [f for f in fns if any(isinstance(n, ast.For) and (ap(n.iter) or "").endswith(".variables") for n in walk(f.node))]
+        cands = [f for f in fns if any(isinstance(n, ast.For) and (alias_path(f.node, n.iter) or "").endswith(".variables")
+                                       for n in walk(f.node))]
         legacy = "UDPMessageSerializer._serialize_block"
     if len(cands) == 1:
         return cands[0]
@@ -238,6 +239,15 @@ def r1(ctx):
         ctx.ob("C01.R1", f"template keyword {kwd} parsed to one MsgType", len(tgt) == 1 and next(iter(tgt)) in members,
                pf.where, f"keyword used by {example} maps to {sorted(tgt)}")
     ctx.floor("C01.R1", "parser keywords", len(kwmap), 18)
+    # the template's type keywords denote pairwise different wire types: the keyword -> MsgType map is injective
+    by_type = {}
+    for kwd, tgt in sorted(kwmap.items()):
+        for t_ in tgt:
+            by_type.setdefault(t_, []).append(kwd)
+    for t_, kws in sorted(by_type.items()):
+        ctx.ob("C01.R1", f"MsgType.{t_} is the parse of one template keyword", len(kws) == 1, pf.where,
+               f"keywords {kws} are all parsed to MsgType.{t_}: the template distinguishes them (different widths / "
+               f"codecs), so variables of one of them are framed and packed as the other")
 
     # factory rows / idiom rows
     for m, v in spec_rows.items():
@@ -467,7 +477,7 @@ def r2_r3(ctx):
     for side, f, meth in (("writer", wv, "pack"), ("reader", rv, "unpack")):
         cs = [c for c in find_calls(f.node, meth) if (ap(c.func) or "").startswith("TemplateDataPacker")]
         ctx.ob("C01.R2", f"{side} uses TemplateDataPacker.{meth} with the template type", len(cs) == 1 and
-               len(cs[0].args) == 2 and (ap(cs[0].args[1]) or "").endswith(".type"), f.where)
+               len(cs[0].args) == 2 and (alias_path(f.node, cs[0].args[1]) or "").endswith(".type"), f.where)
 
     # R3 block counts
     wb_ = writer_stage(repo, "block")
@@ -530,7 +540,8 @@ def r2_r3(ctx):
             if st.kind == "assign" and st.value is not None and (ap(st.value) or "").endswith(".number") and \
                     has_eq_fact(st.node, ".block_type", "MsgBlockType.MBT_MULTIPLE", f.node):
                 multi_r.append((f, st))
-    if not multi_r and resolved:
+    if not multi_r and resolved_all:
+        resolved = resolved_all
         rm = resolved.get("MBT_MULTIPLE")
         if rm is not None and (ap(rm[0]) or "").endswith(".number"):
             multi_r.append(rm)
@@ -585,6 +596,10 @@ def _reader_repeat_counts(repo, des_fns):
         if len(loops) != 1:
             continue
         paths = {ap(n) for n in walk(f.node) if isinstance(n, ast.Attribute) and n.attr == "block_type" and ap(n)}
+        # the template block being walked: `for <blk> in <template>.blocks` (its type may only be read in a helper)
+        for l_ in walk(f.node):
+            if isinstance(l_, ast.For) and isinstance(l_.target, ast.Name) and (alias_path(f.node, l_.iter) or "").endswith(".blocks"):
+                paths.add(f"{l_.target.id}.block_type")
         if not paths:
             continue
         ev = ConstEval(repo, f.module)
@@ -610,15 +625,29 @@ def r4(ctx):
     # writer/reader construction endianness (helpers extracted from serialize are followed)
     sfs = class_methods_reachable(repo, sf, depth=3)
 
+    def endian_of(f, arg):
+        """the endianness literal a reader / writer is constructed with: a literal, or a class / module constant"""
+        if isinstance(arg, ast.Constant):
+            return arg.value
+        p_ = ap(arg) or ""
+        if f.cls is not None and p_.split(".")[0] in ("self", "cls", f.cls.name) and p_.count(".") == 1:
+            v = repo.class_attr(f.cls, p_.split(".")[1])
+            if v is not None:
+                val = ConstEval(repo, f.module).ev(v)
+                return val if isinstance(val, str) else None
+        val = ConstEval(repo, f.module).ev(arg)
+        return val if isinstance(val, str) else None
+
     def ctors(fns, cname):
         """(function, target variable, constructor call, endianness literal)"""
         out = []
         for f in fns:
             for st in stores(f.node, into_defs=False):
                 v = st.value
-                if st.kind == "assign" and isinstance(v, ast.Call) and call_attr(v) == cname and v.args \
-                        and isinstance(v.args[0], ast.Constant):
-                    out.append((f, st.path, v, v.args[0].value))
+                if st.kind == "assign" and isinstance(v, ast.Call) and call_attr(v) == cname and v.args:
+                    e_ = endian_of(f, v.args[0])
+                    if e_ is not None:
+                        out.append((f, st.path, v, e_))
         return out
     w_ctors = ctors(sfs, "BufferWriter")
     # header writer: the one (in serialize) that receives the flags byte; body writer: the one handed to _serialize_block
@@ -645,8 +674,8 @@ def r4(ctx):
                 for st in stores(init.node, into_defs=False):
                     v = st.value
                     if st.kind == "assign" and st.path == r_ and isinstance(v, ast.Call) and call_attr(v) == "BufferWriter" \
-                            and v.args and isinstance(v.args[0], ast.Constant):
-                        body_w.append((init, st.path, v, v.args[0].value))
+                            and v.args and endian_of(init, v.args[0]) is not None:
+                        body_w.append((init, st.path, v, endian_of(init, v.args[0])))
     r_hdr = ctors([hf], "BufferReader")
     r_body = ctors(bf, "BufferReader")
     ctx.ob("C01.R4", "serializer builds one header writer and one body writer", len(hdr_w) == 1 and len(body_w) == 1,
@@ -713,13 +742,17 @@ def r4(ctx):
         # literal multiplier equals element width
         fmt = struct_fmt_of_prim(repo, es_r)
         width = struct.calcsize("<" + fmt) if fmt else None
-        mults = [n for n in walk(hf.node) if isinstance(n, ast.BinOp) and isinstance(n.op, ast.Mult)
-                 and "num_acks" in {ap(n.left), ap(n.right)}]
-        ctx.ob("C01.R4", "reader computes ack field length once", len(mults) == 1, hf.where)
+        # the count variable: what the reader's count read is assigned to (in the header parser or a helper of it)
+        cnt_fn = fn_of[id(r_cnt[0])]
+        cnt_st = enclosing_stmt(r_cnt[0])
+        cnt_name = ap(cnt_st.targets[0]) if isinstance(cnt_st, ast.Assign) and len(cnt_st.targets) == 1 else "num_acks"
+        mults = [n for n in walk(cnt_fn.node) if isinstance(n, ast.BinOp) and isinstance(n.op, ast.Mult)
+                 and cnt_name in {ap(n.left), ap(n.right)}]
+        ctx.ob("C01.R4", "reader computes ack field length once", len(mults) == 1, cnt_fn.where)
         for mnode in mults:
-            other = mnode.right if ap(mnode.left) == "num_acks" else mnode.left
-            v = ConstEval(repo, hf.module).ev(other)
-            ctx.ob("C01.R4", "ack field length multiplier == element width", v == width, ctx.w(hf, mnode),
+            other = mnode.right if ap(mnode.left) == cnt_name else mnode.left
+            v = ConstEval(repo, cnt_fn.module).ev(other)
+            ctx.ob("C01.R4", "ack field length multiplier == element width", v == width, ctx.w(cnt_fn, mnode),
                    f"multiplier {v}, calcsize({fmt}) = {width}")
         # order reversals: reversed(...) / [::-1] / insert(0, ...) touching the ack sequence, on either side
         def reversals(f, elem_call):
@@ -923,9 +956,10 @@ def r6(ctx):
     ctx.require(isinstance(specs, ast.Tuple), "_MSG_NUM_SPECS is not a tuple literal")
     maxnum = 0
     for i, row in enumerate(specs.elts):
-        ctx.require(isinstance(row, ast.Tuple) and len(row.elts) == 2, "_MSG_NUM_SPECS row shape changed")
-        fmt = struct_fmt_of_prim(repo, spec_symbol(row.elts[1]) or "")
-        ctx.require(fmt is not None, f"_MSG_NUM_SPECS row {i}: unknown spec {src(row.elts[1])}")
+        pr_ = as_pair(repo, dmod, row)
+        ctx.require(pr_ is not None, "_MSG_NUM_SPECS row shape changed")
+        fmt = struct_fmt_of_prim(repo, spec_symbol(pr_[1]) or "")
+        ctx.require(fmt is not None, f"_MSG_NUM_SPECS row {i}: unknown spec {src(pr_[1])}")
         maxnum = max(maxnum, i + struct.calcsize("<" + fmt))
     cs = [c for c in find_calls(hf.node, "zero_code_expand") if has_path_fact(c, "zerocoded", True, hf.node)]
     ctx.ob("C01.R6", "header expands a zero-coded prefix under msg.zerocoded", len(cs) == 1, hf.where, f"found {len(cs)}")
@@ -1113,11 +1147,15 @@ def _resolve_value(repo, fi, node, env, depth=0):
         if target is not None:
             ps = [a.arg for a in target.node.args.args if a.arg not in ("self", "cls")]
             env2 = {}
-            for pname, anode in zip(ps, node.args):
+            pairs = list(zip(ps, node.args)) + [(k.arg, k.value) for k in node.keywords if k.arg]
+            for pname, anode in pairs:
                 env2[pname] = ev.ev(anode, env)
-            for k in node.keywords:
-                if k.arg:
-                    env2[k.arg] = ev.ev(k.value, env)
+                # attribute paths of the argument keep their meaning under the parameter's name
+                apath = ap(anode)
+                if apath:
+                    for k_, v_ in env.items():
+                        if k_.startswith(apath + "."):
+                            env2[pname + k_[len(apath):]] = v_
             ev2 = ConstEval(repo, target.module)
             r = _taken_return(ev2, target.node.body, env2)
             if r is not None:
@@ -1180,9 +1218,12 @@ def r7(ctx):
     dmod = repo.module(DES)
     specs = repo.module_assign(dmod, "_MSG_NUM_SPECS")
     rows = []
+    ctx.require(isinstance(specs, (ast.Tuple, ast.List)), "C01.R7: _MSG_NUM_SPECS is not a tuple literal")
     for row in specs.elts:
-        nm = row.elts[0].value if isinstance(row.elts[0], ast.Constant) else None
-        rows.append((nm, struct_fmt_of_prim(repo, spec_symbol(row.elts[1]) or "")))
+        pr_ = as_pair(repo, dmod, row)
+        ctx.require(pr_ is not None, f"C01.R7: _MSG_NUM_SPECS row `{norm(row)}` is not a (name, spec) pair")
+        nm = pr_[0].value if isinstance(pr_[0], ast.Constant) else None
+        rows.append((nm, struct_fmt_of_prim(repo, spec_symbol(pr_[1]) or "")))
     freq = enum_members(repo, repo.cls("MsgFrequency", TYPES))
     ctx.floor("C01.R7", "MsgFrequency members", len(freq), 4)
     td = "hippolyzer/lib/base/message/template_dict.py"
@@ -1248,6 +1289,44 @@ def r7(ctx):
                     raise AnalysisError(f"C01.R7: get_msg_freq_num_len: {e}")
                 ctx.ob("C01.R7", f"get_msg_freq_num_len({m}) == len(number bytes)", ln == k + struct.calcsize("<" + body),
                        glen.where, f"returns {ln}, bytes are {k}+{struct.calcsize('<' + body)}")
+    # reader: the FF-prefix length is the number of LEADING 0xFF bytes.  _parse_msg_num is interpreted on every 3-byte
+    # window over {00, 01, FF}: the frequency row it picks and the bytes it skips must be those of the leading run
+    pn = repo.fn("_parse_msg_num", DES)
+    import itertools as _it
+    n_win = 0
+    bad_win = []
+    for win in _it.product((0x00, 0x01, 0xFF), repeat=3):
+        window = bytes(win)
+        lead = len(window) - len(window.lstrip(b"\xff"))
+        consumed = []
+        pev = ConstEval(repo, pn.module)
+
+        def rhook(node, fn, args, kwargs, local, _w=window, _c=consumed):
+            last = fn.split(".")[-1]
+            if last == "read_bytes" and args and isinstance(args[0], int):
+                if kwargs.get("peek") is True:
+                    return _w[:args[0]]
+                _c.append(args[0])
+                return _w[:args[0]]
+            if last == "seek" and args and isinstance(args[0], int) and len(args) == 2:
+                _c.append(args[0])
+                return 0
+            return None
+        pev.call_hook = rhook
+        try:
+            out = run_block(pev, [st_ for st_ in pn.node.body if not (isinstance(st_, ast.Expr) and isinstance(st_.value, ast.Constant))],
+                            {a.arg: Sym(a.arg) for a in pn.node.args.args})
+        except AnalysisError as e:
+            raise AnalysisError(f"C01.R7: cannot evaluate _parse_msg_num on window {window.hex()}: {e}")
+        n_win += 1
+        got_name = out.value[0] if out.kind == "return" and isinstance(out.value, (tuple, list)) and out.value else None
+        exp_name = rows[lead][0] if lead < len(rows) else None
+        if got_name != exp_name or sum(consumed) != lead:
+            bad_win.append((window.hex(), got_name, sum(consumed), exp_name, lead))
+    ctx.ob("C01.R7", "reader takes the LEADING 0xFF run as the frequency prefix (all 27 windows over {00,01,FF})", not bad_win,
+           pn.where, f"e.g. window {bad_win[0][0]}: frequency {bad_win[0][1]!r}, {bad_win[0][2]} prefix byte(s) skipped; the "
+           f"leading run is {bad_win[0][4]} -> {bad_win[0][3]!r}" if bad_win else "")
+    ctx.floor("C01.R7", "message-number windows evaluated", n_win, 27)
     # writer puts freq_num_bytes then extra; reader skips num_len + offset
     sf = repo.fn("UDPMessageSerializer.serialize")
     order_ok = False
@@ -1400,19 +1479,29 @@ def r11(ctx):
                    f"which the reader accepts")
     ctx.stats["C01.R11.count_rejections"] = n_checked
     # reader: everything that handles the trailer depends on the ACK flag alone
-    hf = repo.fn("UDPMessageDeserializer._parse_message_header")
+    hf0 = repo.fn("UDPMessageDeserializer._parse_message_header")
     from ..core import conditions
     n = 0
-    for st in stores(hf.node, into_defs=False):
+    # the trailer handling may live in helpers that the header parser calls under the ACK flag: their statements
+    # inherit that condition from the call site (and any further condition there counts as an extra one)
+    sites = [(hf0, st, []) for st in stores(hf0.node, into_defs=False)]
+    for c in calls(hf0.node):
+        tgt = None
+        if isinstance(c.func, ast.Attribute) and isinstance(c.func.value, ast.Name) and c.func.value.id in ("self", "cls") \
+                and hf0.cls is not None:
+            tgt = repo.lookup_method(hf0.cls, c.func.attr)
+        if tgt is not None and tgt is not hf0 and has_path_fact(c, "has_acks", True, hf0.node):
+            sites.extend((tgt, st, list(conditions(c, hf0.node))) for st in stores(tgt.node, into_defs=False))
+    for hf, st, inherited in sites:
         if st.kind not in ("assign", "augassign") or "." in st.path:
             continue
-        if not has_path_fact(st.node, "has_acks", True, hf.node):
+        if not inherited and not has_path_fact(st.node, "has_acks", True, hf.node):
             continue
         # only the statements that cut the trailer off: the size bookkeeping and the data snip
         if not (st.kind == "augassign" or (isinstance(st.value, ast.Subscript) and isinstance(st.value.slice, ast.Slice))):
             continue
         extra = []
-        for cond in conditions(st.node, hf.node):
+        for cond in list(conditions(st.node, hf.node)) + inherited:
             if cond.kind == "early-exit":
                 ifst = parent(cond.test)
                 exit_branch = ifst.body if not cond.polarity else ifst.orelse
@@ -1424,7 +1513,7 @@ def r11(ctx):
                 if not ((ap(e) or "").endswith("has_acks") and pol):
                     extra.append(norm(e))
         n += 1
-        ctx.ob("C01.R11", f"_parse_message_header: `{norm(st.node)}` (trailer cut) depends on the ACK flag alone", not extra,
+        ctx.ob("C01.R11", f"{hf.name}: `{norm(st.node)}` (trailer cut) depends on the ACK flag alone", not extra,
                ctx.w(hf, st.node), f"also conditioned on {extra}: with the flag set the writer always emits the count byte, "
                f"so it must always be cut off")
     ctx.floor("C01.R11", "trailer cut statements", n, 2)
